@@ -131,11 +131,16 @@ func vMutate(text []byte, op, o int, c byte) []byte {
 }
 
 func vC07Mutation(withOrigin bool, op int, shard, nshards int) {
-	text := []byte(vSmallRecord(withOrigin))
-	n := len(text)
+	n := len(vSmallRecord(withOrigin))
 	// concrete offset chosen among those of this shard
 	cnt := (n - shard + nshards - 1) / nshards
 	o := shard + nshards*vChoice("o", cnt)
+	vC07MutationAt(withOrigin, op, o)
+}
+
+func vC07MutationAt(withOrigin bool, op int, o int) {
+	text := []byte(vSmallRecord(withOrigin))
+	n := len(text)
 	c := vByte("c")
 	in := vMutate(text, op, o, c)
 	var recs int
@@ -161,6 +166,16 @@ func vC07Mutation(withOrigin bool, op int, shard, nshards int) {
 	isGB := false
 	if recs >= 1 {
 		_, isGB = seqs[0].(GenBank) // a flipped first byte can turn the text into a (valid) FASTA record
+	}
+	if !withOrigin && recs >= 1 && isGB {
+		// CONTIG-only record: the declared length must be the length of the contig region
+		gb := seqs[0].(GenBank)
+		lenPos := bytes.Index(text, []byte(" bp")) - 1
+		declared := 4
+		if op == 1 && o == lenPos {
+			declared = int(c) - '0'
+		}
+		vAssert("contig-length-consistent", vAnd(len(gb.Bytes()) == 0, gb.Fields.Contig.Region.Len() == declared))
 	}
 	if withOrigin && recs >= 1 && isGB {
 		// accepted: residues read == declared length == residue characters present in the ORIGIN block
@@ -244,4 +259,20 @@ func VH_C07_genbank_indent() {
 	vCover("indent-scanned")
 	_ = err
 	vObserve("len", len(in))
+}
+
+//verif:harness prop=C07 quick=1 thorough=1 merge=concrete timeout=1500
+//verif:bounds the CONTIG-only small record: truncate at / flip (symbolic byte) every offset of its CONTIG line and of the LOCUS length field
+func VH_C07_genbank_mutation_contig() {
+	text := []byte(vSmallRecord(false))
+	start := bytes.Index(text, []byte("CONTIG"))
+	end := start + bytes.IndexByte(text[start:], '\n') + 1
+	lenPos := bytes.Index(text, []byte(" bp")) - 1
+	offs := []int{lenPos - 1, lenPos}
+	for o := start; o <= end && o < len(text); o++ {
+		offs = append(offs, o)
+	}
+	o := offs[vChoice("o", len(offs))]
+	op := vChoice("op", 2)
+	vC07MutationAt(false, op, o)
 }
